@@ -54,7 +54,7 @@ macro_rules! pass_module {
 pass_module!(
     d1,
     BabyBear,
-    vec![F::ZERO, F::ONE, F::from_u64(5), F::from_u64(7)],
+    vec![F::ZERO, F::ONE, F::from_u64(5), F::from_u64(7), -F::from_u64(5)],
     vec![F::ZERO, F::ONE, F::TWO, F::from_u64(3), F::NEG_ONE],
     |x: &F| format!("{}", x.as_canonical_u64()),
     |c: &Circuit<F>, t: &Traces<F>| vpe1::accept::prove_verify_bb1(c, t, &p3_circuit_prover::batch_stark_prover::TablePacking::default())
@@ -65,7 +65,7 @@ pass_module!(
     p3_field::extension::BinomialExtensionField<BabyBear, 4>,
     {
         let e = |c: [u64; 4]| F::from_basis_coefficients_slice(&c.map(BabyBear::from_u64)).unwrap();
-        vec![F::ZERO, F::ONE, e([5, 0, 1, 0]), e([7, 3, 0, 2])]
+        vec![F::ZERO, F::ONE, e([5, 0, 1, 0]), e([7, 3, 0, 2]), -e([5, 0, 1, 0])]
     },
     {
         let e = |c: [u64; 4]| F::from_basis_coefficients_slice(&c.map(BabyBear::from_u64)).unwrap();
